@@ -90,6 +90,11 @@ def mangled(name):
     return name
 
 
+def unmangle(fn):
+    mo = re.match(r'__CPROVER_file_local_\w+?_c_(\w+)$', fn)
+    return mo.group(1) if mo else fn
+
+
 def plain(name):
     return name.split(':')[-1]
 
@@ -288,7 +293,7 @@ def run_harness(h, keep=False, extra_defines=()):
         gbs = []
         linemaps = {}
         specdir = os.path.dirname(h.path)
-        inc = INC + ['-I' + os.path.join(VERIF, 'vlib'), '-I' + specdir] + ['-D' + d for d in list(h.defines) + list(extra_defines)]
+        inc = INC + ['-I' + os.path.join(VERIF, 'vlib'), '-I' + specdir, '-I' + os.path.join(VERIF, 'spec')] + ['-D' + d for d in list(h.defines) + list(extra_defines)]
         for tu in h.tus:
             injs = [i for i in h.injections if i.get('file') == tu]
             dst, lm, fired = inject(tu, injs, scratch)
@@ -299,6 +304,15 @@ def run_harness(h, keep=False, extra_defines=()):
             rc, out, err, dt = run(cmd, cwd=scratch, timeout=300)
             if rc != 0:
                 raise Undecided('goto-cc failed on %s:\n%s' % (tu, (out + err)[-3000:]))
+            so = [plain(x) for x in h.meta.get('stub_out', []) if ':' not in x or x.split(':')[0] == os.path.basename(tu)]
+            if so:
+                # the real bodies of these callees are dropped; the harness supplies a stub (listed as an assumption)
+                gb2 = dst[:-2] + '.nobody.gb'
+                cmd = ['goto-instrument'] + sum([['--remove-function-body', mangled(x) if ':' in x else x] for x in h.meta.get('stub_out', [])], []) + [gb, gb2]
+                rc, out, err, dt = run(cmd, cwd=scratch, timeout=300)
+                if rc != 0:
+                    raise Undecided('remove-function-body failed:\n%s' % (out + err)[-2000:])
+                gb = gb2
             gbs.append(gb)
         unfired = [i for i in h.injections if i.get('file') not in h.tus]
         if unfired:
@@ -354,6 +368,8 @@ def run_harness(h, keep=False, extra_defines=()):
             raise Undecided('cbmc dropped a quantifier: ' + '; '.join(mt for mt in msgs if 'ignoring' in mt))
         if results is None:
             raise Undecided('cbmc produced no result (rc=%s): %s' % (rc, '\n'.join(msgs[-15:])))
+        if any(r_['status'] == 'ERROR' for r_ in results):
+            raise Undecided('cbmc reported ERROR status (solver failure / out of memory?): %s' % ' | '.join(msgs[-6:]))
         real_fns = set(plain(f) for f in (h.functions if h.functions is not None else
                                           ([h.enforce] if h.enforce else []) + [i['function'] for i in h.injections if 'function' in i]))
         srcs = {}
@@ -386,15 +402,17 @@ def run_harness(h, keep=False, extra_defines=()):
                     text = srcs[af][line - 1].strip()
             desc = r_.get('description', '')
             # classification
-            if desc.startswith('harness-sanity'):
+            if desc.startswith('V_COVER'):
+                kind = 'cover'
+            elif desc.startswith('harness-sanity'):
                 kind = 'sanity'
             elif cls in ('unwinding assertion', 'unwind') or 'unwinding assertion' in desc:
                 kind = 'unwind'
             elif in_real:
                 # checks located in real code: obligations when in a function under contract
                 # (or any real function when the harness says functions: ["*"])
-                fnp = fn.replace('__CPROVER_file_local_', '')
-                under = any(fnp == x or fnp.endswith('_' + x) for x in real_fns) or '*' in real_fns
+                fnp = unmangle(fn)
+                under = fnp in real_fns or '*' in real_fns
                 kind = 'obligation' if under else 'callee-safety'
             elif in_spec:
                 if cls in ('postcondition', 'precondition', 'assertion', 'loop_invariant_base', 'loop_invariant_step',
@@ -409,13 +427,23 @@ def run_harness(h, keep=False, extra_defines=()):
             for ig in h.ignore:
                 if ig.get('class', cls) == cls and ig.get('text_contains', '') in text and ig.get('desc_contains', '') in desc and kind == 'obligation':
                     kind = 'out-of-scope'
-            fnp = fn.replace('__CPROVER_file_local_', '')
+            fnp = unmangle(fn)
             group = '%s.%s' % (fnp, cls)
             if cls == 'assertion':
                 group += ':' + desc
             res['props'].append({'id': r_['property'], 'class': cls, 'function': fnp, 'file': ofile, 'line': oline,
                                  'text': text, 'desc': desc, 'status': r_['status'], 'kind': kind, 'group': group,
-                                 'trace': r_.get('trace') if r_['status'] == 'FAILURE' else None})
+                                 'trace': r_.get('trace') if (r_['status'] == 'FAILURE' and kind != 'cover') else None})
+        # vacuity guard: every V_COVER point (an assertion that must FAIL) has to be reachable;
+        # a contradictory requires / assume makes it pass, which is reported as undecided
+        covers = [p for p in res['props'] if p['kind'] == 'cover']
+        res['cover_goals'] = len(covers)
+        res['cover_satisfied'] = sum(1 for p in covers if p['status'] == 'FAILURE')
+        if h.text.count('V_COVER(') and not covers:
+            raise Undecided('vacuity guard: V_COVER points produced no property')
+        unreached = [p for p in covers if p['status'] != 'FAILURE']
+        if unreached:
+            raise Undecided('vacuity guard: cover points not reachable: %s' % [p['text'][:80] for p in unreached[:5]])
         # must-fire: each injected loop contract must show base+step obligations
         nloops = sum(1 for i in res['injected'] if i['kind'] == 'loop')
         nstep = len(set((p['function'], p['line']) for p in res['props'] if p['class'] == 'loop_invariant_step'))
